@@ -28,6 +28,8 @@ DAILY_PROFILES = {
     "legacy-season": ("legacy", {"season": SOUTH, "weekday_weekend": {"friday": "weekend"}}),
     "current-season": ("current", {"season": SOUTH, "weekday_weekend": {"friday": "weekend", "sunday": "weekday"}}),
     "current-unc": ("current", {"uncertainty_alpha": 0.2}),
+    # a re-mapped weekday with usage that follows the map: the fit separates weekday and weekend sub-models
+    "current-weekday": ("current", {"weekday_weekend": {"friday": "weekend", "monday": "weekend"}}),
 }
 BILLING_PROFILES = {
     "billing": None,
@@ -85,6 +87,14 @@ def job_daily(job):
     weekend = rng.choice([1.0, 1.4])
     df = fitlib.daily_frame(rng, tz=tz, noise=noise, weekend=weekend, bh=rng.choice([1.2, 0.0, 0.6]), bc=rng.choice([0.8, 0.0]))
     rep = fitlib.daily_frame(rng, tz=tz, start="2023-01-01", ndays=rng.choice([90, 200]))
+    if st and "weekday_weekend" in st and job["profile"] == "current-weekday":
+        # usage follows the model's own day map (Fri-Mon weekend), so that the wd/we split is the one selected
+        df = fitlib.daily_frame(rng, tz=tz, noise=0.03, weekend=1.0)
+        wk = dict(zip(c01lib.DAYS, c01lib.DEFAULT_WEEK))
+        wk.update(st["weekday_weekend"])
+        we = [i for i, d in enumerate(c01lib.DAYS) if wk[d] == "weekend"]
+        df.loc[df.index.dayofweek.isin(we), "observed"] *= 1.6
+        rep = fitlib.daily_frame(rng, tz=tz, start="2023-01-01", ndays=200)
     with quiet():
         m = DailyModel(model=base, settings=copy.deepcopy(st)).fit(fitlib.daily_baseline(df.copy()), ignore_disqualification=True)
     sets = [("continuation", lambda: fitlib.daily_reporting(rep.copy())),
